@@ -83,8 +83,17 @@ func load(repo string, o loadOpts) (*Ctx, error) {
 	if err != nil || o.noInline {
 		return c, err
 	}
-	for round := 0; round < 3; round++ {
+	unrolled := false
+	for round := 0; round < 5; round++ {
 		overlay, names := inlineNewHelpers(c)
+		if overlay == nil && !unrolled {
+			// then the loops over fixed tables that the pinned tree does not have (unroll.go), once
+			unrolled = true
+			overlay, names = unrollNewLoops(c)
+			for i := range names {
+				names[i] = "loop " + names[i]
+			}
+		}
 		if overlay == nil {
 			break
 		}
@@ -102,7 +111,7 @@ func load(repo string, o loadOpts) (*Ctx, error) {
 		}
 		c2, err2 := loadOnce(repo, o2)
 		if err2 != nil {
-			c.InlineNote = fmt.Sprintf("new helpers %v could not be written back into their callers (%v): the tree is analysed as it stands", names, err2)
+			c.InlineNote = fmt.Sprintf("new helpers / table loops %v could not be written back (%v): the tree is analysed as it stands", names, err2)
 			break
 		}
 		c2.Inlined = append(append([]string{}, c.Inlined...), names...)
